@@ -57,18 +57,17 @@ def trim2Text : Bytes := [97, 99, 99, 111, 117, 110, 116, 32, 97, 58, 98, 13, 10
 def trim2Toks : List Token := [
   ⟨.directive, [97, 99, 99, 111, 117, 110, 116], ⟨1, 1, 0⟩, ⟨1, 8, 7⟩⟩,
   ⟨.account, [97, 58, 98], ⟨1, 9, 8⟩, ⟨1, 12, 11⟩⟩,
-  ⟨.text, [], ⟨1, 12, 11⟩, ⟨1, 13, 12⟩⟩,
-  ⟨.newline, [10], ⟨1, 13, 12⟩, ⟨2, 1, 13⟩⟩,
+  ⟨.newline, [10], ⟨1, 12, 11⟩, ⟨2, 1, 13⟩⟩,
   ⟨.eof, [], ⟨2, 1, 13⟩, ⟨2, 1, 13⟩⟩]
 -- implementation's array: [0, 0, 7, 6, 0, 0, 8, 3, 0, 1]
 
 /-- `"; note\r\n"` and the lexer's tokens for it (replays/C17/crlf-comment-length.jsonl, line 1). -/
 def crlfText : Bytes := [59, 32, 110, 111, 116, 101, 13, 10]
 def crlfToks : List Token := [
-  ⟨.comment, [32, 110, 111, 116, 101, 13], ⟨1, 1, 0⟩, ⟨1, 8, 7⟩⟩,
-  ⟨.newline, [10], ⟨1, 8, 7⟩, ⟨2, 1, 8⟩⟩,
+  ⟨.comment, [32, 110, 111, 116, 101], ⟨1, 1, 0⟩, ⟨1, 7, 6⟩⟩,
+  ⟨.newline, [10], ⟨1, 7, 6⟩, ⟨2, 1, 8⟩⟩,
   ⟨.eof, [], ⟨2, 1, 8⟩, ⟨2, 1, 8⟩⟩]
--- implementation's array: [0, 0, 7, 9, 0]
+-- implementation's array: [0, 0, 6, 9, 0]
 
 /-- `"2024-01-15 x\n    a:😀  $1\n"` and the lexer's tokens for it (replays/C17/nonbmp-column.jsonl, line 1). -/
 def nonbmpText : Bytes := [50, 48, 50, 52, 45, 48, 49, 45, 49, 53, 32, 120, 10, 32, 32, 32, 32, 97, 58, 240, 159, 152, 128, 32, 32, 36, 49, 10]
@@ -129,5 +128,24 @@ def pipePinnedToks : List Token := [
   ⟨.text, [110, 111, 116, 101], ⟨1, 18, 17⟩, ⟨1, 22, 21⟩⟩,
   ⟨.newline, [10], ⟨1, 22, 21⟩, ⟨2, 1, 22⟩⟩,
   ⟨.eof, [], ⟨2, 1, 22⟩, ⟨2, 1, 22⟩⟩]
+
+/-- The tokens the PINNED lexer (HL/Model/LexerPinned.lean: only LF ends a line, before the
+    `fix:` commit for CRLF line ends) returned for `crlfText`: the comment's value and extent
+    include the CR.  As the witness was recorded then; `HL.Props.C17` proves it equal to the
+    pinned lexer model's output.  Used only by `pinned_crlf_comment_length_counterexample`. -/
+def crlfPinnedToks : List Token := [
+  ⟨.comment, [32, 110, 111, 116, 101, 13], ⟨1, 1, 0⟩, ⟨1, 8, 7⟩⟩,
+  ⟨.newline, [10], ⟨1, 8, 7⟩, ⟨2, 1, 8⟩⟩,
+  ⟨.eof, [], ⟨2, 1, 8⟩, ⟨2, 1, 8⟩⟩]
+
+/-- The tokens the PINNED lexer returned for `trim2Text` (`account a:b` + CRLF): an empty Text
+    token on the CR.  As the witness was recorded then; used only by
+    `pinned_text_trimmed_position_counterexample`. -/
+def trim2PinnedToks : List Token := [
+  ⟨.directive, [97, 99, 99, 111, 117, 110, 116], ⟨1, 1, 0⟩, ⟨1, 8, 7⟩⟩,
+  ⟨.account, [97, 58, 98], ⟨1, 9, 8⟩, ⟨1, 12, 11⟩⟩,
+  ⟨.text, [], ⟨1, 12, 11⟩, ⟨1, 13, 12⟩⟩,
+  ⟨.newline, [10], ⟨1, 13, 12⟩, ⟨2, 1, 13⟩⟩,
+  ⟨.eof, [], ⟨2, 1, 13⟩, ⟨2, 1, 13⟩⟩]
 
 end HL.Lemmas.SemTok.W
